@@ -492,7 +492,11 @@ class HeadingRowSchemaLoader(SchemaLoader[Instance]):
         :param source: An iterator over instances.
         :return: A Schema or None if no schema can be parsed.
         """
-        first = cast(list[Any], next(source))
+        try:
+            first = cast(list[Any], next(source))
+        except StopIteration:
+            # An empty sheet: no heading row, no schema, no rows.
+            return None
         json_schema = {
             "type": "object",
             "properties": {
